@@ -18,7 +18,10 @@ from . import rx
 
 
 class Subst:
-    def __init__(self, kind, anywhere, start_only, text, node):
+    def __init__(self, kind, anywhere, start_only, text, node,
+                 old=None, new=None):
+        self.old = old            # for str.replace: constant arguments
+        self.new = new
         self.kind = kind
         self.anywhere = anywhere        # set of chars altered anywhere
         self.start_only = start_only    # set of chars altered only at start
@@ -105,7 +108,7 @@ class Summariser:
                         '{}: multi-character replace {} not modelled'
                         .format(self.f.fq, unparse(e)))
                 return base.extend(Subst('replace', alt, set(), unparse(e),
-                                         e))
+                                         e, old, new))
             if meth == 'sub':
                 recv_txt = unparse(e.func.value)
                 if recv_txt == 're' and len(e.args) >= 3:
@@ -123,7 +126,16 @@ class Summariser:
                     pat = pc.pattern
                     repl, s = e.args[0], e.args[1]
                 base = self.sym(s)
-                anywhere, start, grp = rx.sub_pattern_chars(pat)
+                try:
+                    anywhere, start, grp = rx.sub_pattern_chars(pat)
+                except rx.MultiCharPattern:
+                    # consumes more than one character per match: the
+                    # replacement cannot escape every occurrence
+                    anywhere, start, grp = set(), set(), None
+                    return base.extend(Subst(
+                        'resub', anywhere, start,
+                        '{} [pattern {!r}: multi-character match]'.format(
+                            unparse(e), pat), e))
                 if not self._repl_alters(repl, grp):
                     anywhere, start = set(), set()
                 return base.extend(Subst(
